@@ -29,4 +29,4 @@ for f in sorted(glob.glob(os.path.join(V, "seeded/*/meta.json"))):
     m = json.load(open(f)); d = os.path.dirname(f)
     notes = open(os.path.join(d, "notes.md")).read() if os.path.exists(os.path.join(d, "notes.md")) else ""
     title = m.get("summary") or next((l.strip("# ").strip() for l in notes.splitlines() if l.strip()), "")
-    print(f"| {m['property']} | {title[:160]} (`seeded/{m['id']}`, sub-agent) | {m.get('needs_short','see notes.md')} | {', '.join(m['check']['classes']) or '-'} | {'yes' if m['detected'] else 'NO'}{'' if m['confirmed'] else ' (not confirmed)'} |")
+    print(f"| {m['property']} | {title[:160]} (`seeded/{m['id']}`, sub-agent) | {m.get('needs_short','see notes.md')} | {', '.join(m['check']['classes']) or '-'} | {'yes' if m['detected'] else 'NO'}{'' if m['confirmed'] else ' (not confirmed)'}{' — ' + m['strengthening'] if m.get('strengthening') else ''} |")
